@@ -75,6 +75,9 @@ class HeapMixin:
                         return VBound(v, attr)
                 if rec.sym is not None:
                     ty = self.field_type(rec.cls, attr)
+                    ov = (self.contract.options.get("field_types") or {}).get(f"{rec.sym}.{attr}") if self.contract is not None else None
+                    if ov is not None:
+                        ty = parse_type(ov)          # the contract types this access path more precisely than the class shape does
                     if ty is not None:
                         val = self.fresh(ty, f"{rec.sym}.{attr}")
                         rec = run.rec(v.oid)
@@ -275,6 +278,8 @@ class HeapMixin:
                 return ("b", E.is_true(t))
         if isinstance(k, VNone):
             return ("n",)
+        if isinstance(k, VModule):
+            return ("m", k.name)          # classes / functions of library modules used as table keys (ast.Add -> operator.add)
         if isinstance(k, VTuple):
             ks = [self.key_of(x) for x in k.items]
             if all(x is not None for x in ks):
